@@ -56,6 +56,13 @@ func (dec *Decoder) fastReadStringAsBytes(utf16Length int) (data []byte) {
 			return
 		}
 	}
+	if off > len(buf) {
+		// a 4-byte character where a single UTF-16 unit (and fewer than 4 bytes) was left
+		if dec.Error == nil {
+			dec.Error = ErrInvalidUTF8
+		}
+		return nil
+	}
 	dec.head += off
 	return buf[:off]
 }
@@ -65,7 +72,7 @@ func (dec *Decoder) readStringAsBytes(utf16Length int) (data []byte, safe bool) 
 		return nil, true
 	}
 	length := dec.tail - dec.head
-	if length >= utf16Length*3 {
+	if length/3 >= utf16Length { // not utf16Length*3: the length comes from the wire and may overflow
 		return dec.fastReadStringAsBytes(utf16Length), false
 	}
 	for {
